@@ -9,6 +9,7 @@ Tableaus are assumed rectangular (`StandardLinearModel::new` resizes every row);
 default instead of panicking.
 -/
 import Rooc.Standardize
+import Rooc.Gen.Simplex
 namespace Rooc
 
 /-- `Tableau` (variable names are not modelled). -/
@@ -72,19 +73,32 @@ def findH (tol : α) (T : Tab α) (bland : Bool) : Option Nat :=
 def ratios (tol : α) (T : Tab α) (h : Nat) : List (Nat × α) :=
   T.a.zipIdx.filterMap fun (r, i) => if Tol.fgt tol (nth r h) zero then some (i, div (nth T.b i) (nth r h)) else none
 
-/-- `find_t`: minimum ratio; ties (within tolerance) go to the smaller basic index or a preferred variable. -/
+/-- Bland's index rule for a tie of the ratio test: the smaller basic index wins, or a preferred variable. -/
+def tieWins (basis prefer : List Nat) (mn ir : Nat × α) : Bool :=
+  let bi := basis.getD ir.1 0
+  let bm := basis.getD mn.1 0
+  let toPrefer := prefer.contains bi && !(prefer.contains bm)
+  decide (bi < bm) || toPrefer
+
+/-- one step of the scan of `find_t` (`mn` = best so far, `ir` = next candidate).  The source has one of two
+shapes, re-read on every run into `Gen.ratioTestExact`:
+* tolerant (`false`): `if float_eq(ratio, min) { index rule } else if float_lt(ratio, min) { take }`;
+* exact (`true`, `fixes/C14-ratio-test-exact.diff`): `if ratio < min { take } else if ratio == min { index rule }`. -/
+def selRatio (tol : α) (basis prefer : List Nat) (mn ir : Nat × α) : Nat × α :=
+  if Gen.ratioTestExact then
+    (if lt ir.2 mn.2 then ir
+     else if eq ir.2 mn.2 then (if tieWins basis prefer mn ir then ir else mn)
+     else mn)
+  else
+    (if Tol.feq tol ir.2 mn.2 then (if tieWins basis prefer mn ir then ir else mn)
+     else if Tol.flt tol ir.2 mn.2 then ir
+     else mn)
+
+/-- `find_t`: minimum ratio; ties go to the smaller basic index or a preferred variable. -/
 def findT (tol : α) (T : Tab α) (h : Nat) (prefer : List Nat) : Option (Nat × α) :=
   match ratios tol T h with
   | [] => none
-  | first :: rest =>
-    some (rest.foldl (fun (mn : Nat × α) (ir : Nat × α) =>
-      if Tol.feq tol ir.2 mn.2 then
-        let bi := T.basis.getD ir.1 0
-        let bm := T.basis.getD mn.1 0
-        let toPrefer := prefer.contains bi && !(prefer.contains bm)
-        if bi < bm || toPrefer then ir else mn
-      else if Tol.flt tol ir.2 mn.2 then ir
-      else mn) first)
+  | first :: rest => some (rest.foldl (selRatio tol T.basis prefer) first)
 
 /-- `pivot(t, h)`: variable `h` enters, the basic variable of row `t` leaves. -/
 def pivot (T : Tab α) (t h : Nat) : Tab α :=
